@@ -124,4 +124,16 @@ package serializers
 //@   inline
 //@   ensures [C02:cdx:component:nil] (result == nil) <==> (n == nil)
 //@   ensures [C02:cdx:component:scalars] n != nil ==> cdxCompOf(result, n)
+//@   ensures [C02:cdx:component:extrefs] n != nil ==> result.ExternalReferences != nil && len(*result.ExternalReferences) == len(n.ExternalReferences) && (forall a int :: 0 <= a && a < len(n.ExternalReferences) ==> (*result.ExternalReferences)[a].URL == n.ExternalReferences[a].Url && (*result.ExternalReferences)[a].Comment == n.ExternalReferences[a].Comment)
+//@   ensures [C02:cdx:component:extrefHashes] n != nil ==> (forall a int, j int :: 0 <= a && a < len(n.ExternalReferences) && (*result.ExternalReferences)[a].Hashes != nil && 0 <= j && j < len(*(*result.ExternalReferences)[a].Hashes) ==> (exists k int32 :: (k in n.ExternalReferences[a].Hashes) && (*(*result.ExternalReferences)[a].Hashes)[j].Value == n.ExternalReferences[a].Hashes[k]))
+//@   invariant L2: [C02:inv] c != nil && fresh(c) && c.ExternalReferences != nil && fresh(c.ExternalReferences) && len(*c.ExternalReferences) == _i
+//@   invariant L2: [C02:inv] forall a int :: 0 <= a && a < _i ==> (*c.ExternalReferences)[a].URL == n.ExternalReferences[a].Url && (*c.ExternalReferences)[a].Comment == n.ExternalReferences[a].Comment
+//@   invariant L2: [C02:inv] forall a int, j int :: 0 <= a && a < _i && (*c.ExternalReferences)[a].Hashes != nil && 0 <= j && j < len(*(*c.ExternalReferences)[a].Hashes) ==> (exists k int32 :: (k in n.ExternalReferences[a].Hashes) && (*(*c.ExternalReferences)[a].Hashes)[j].Value == n.ExternalReferences[a].Hashes[k])
+//@   invariant L3: [C02:inv] c != nil && fresh(c) && c.ExternalReferences != nil && fresh(c.ExternalReferences) && len(*c.ExternalReferences) == _i1 && 0 <= _i1 && _i1 < len(n.ExternalReferences) && er == n.ExternalReferences[_i1]
+//@   invariant L3: [C02:inv] forall a int :: 0 <= a && a < _i1 ==> (*c.ExternalReferences)[a].URL == n.ExternalReferences[a].Url && (*c.ExternalReferences)[a].Comment == n.ExternalReferences[a].Comment
+//@   invariant L3: [C02:inv] forall a int, j int :: 0 <= a && a < _i1 && (*c.ExternalReferences)[a].Hashes != nil && 0 <= j && j < len(*(*c.ExternalReferences)[a].Hashes) ==> (exists k int32 :: (k in n.ExternalReferences[a].Hashes) && (*(*c.ExternalReferences)[a].Hashes)[j].Value == n.ExternalReferences[a].Hashes[k])
+//@   invariant L2: [C02:inv] forall a int :: 0 <= a && a < _i && (*c.ExternalReferences)[a].Hashes != nil ==> allocated((*c.ExternalReferences)[a].Hashes) && allocated(arr(*(*c.ExternalReferences)[a].Hashes))
+//@   invariant L3: [C02:inv] forall a int :: 0 <= a && a < _i1 && (*c.ExternalReferences)[a].Hashes != nil ==> allocated((*c.ExternalReferences)[a].Hashes) && allocated(arr(*(*c.ExternalReferences)[a].Hashes))
+//@   invariant L3: [C02:inv] (cap(hashList) == 0 || fresh(arr(hashList))) && allocated(arr(hashList)) && (forall a int :: 0 <= a && a < _i1 && (*c.ExternalReferences)[a].Hashes != nil ==> (*c.ExternalReferences)[a].Hashes != addr_hashList && (cap(hashList) == 0 || arr(*(*c.ExternalReferences)[a].Hashes) != arr(hashList)))
+//@   invariant L3: [C02:inv] forall j int :: 0 <= j && j < len(hashList) ==> (exists k int32 :: (k in er.Hashes) && hashList[j].Value == er.Hashes[k])
 //@   invariant L4: [C02:inv] c != nil && fresh(c) && c.BOMRef == n.Id && c.Name == n.Name && c.Version == n.Version && c.Description == n.Description && c.Copyright == "" && (n.Type == 1 ==> c.Type == "file") && ((1 in _V) ==> c.PackageURL == n.Identifiers[1]) && (!(1 in _V) ==> c.PackageURL == "")
